@@ -5,7 +5,7 @@ import json, sys, os
 CHECKS = {
  "C01": dict(
     technique="property-based testing: exhaustive small-word enumeration + proptest word ASTs run through the real shell on the simulated OS, compared with an independent reference expander (POSIX XCU 2.6) incl. `read` splitting",
-    text="Exploration: every word of <=2 units from a 94-unit alphabet x 24 states x 6 IFS values (quick: singles complete, pairs strided; thorough: complete) and random words of <=6 units with nested modifier words, random states and IFS; each rendered, lexed and expanded by the real shell; fields received by a probe built-in, side effects of ${x=w}, and error behaviour compared with a reference expander; `read` splitting against a reference splitter. Bounded search, not a proof.",
+    text="Exploration: every word of <=2 units from a 99-unit alphabet x 24 states x 6 IFS values (quick: singles complete, pairs strided; thorough: complete) and random words of <=6 units with nested modifier words, command substitutions and arithmetic expansions (quoted and not, also in modifier words and patterns), random states and IFS (incl. digits as separators); each rendered, lexed and expanded by the real shell; fields received by a probe built-in, side effects of ${x=w}, and error behaviour compared with a reference expander; `read` splitting against a reference splitter. Bounded search, not a proof.",
     note="Trusted: the reference expander/splitter in harness/src/model/expand.rs. POSIX-unspecified corners are skipped and counted (listed in the evidence).",
     design="4/C01"),
  "C02": dict(
@@ -65,7 +65,7 @@ CHECKS = {
  "C11": dict(
     technique="property-based testing / stateful: exhaustive + proptest operation histories on TrapSet over the real SignalSystem implementation against a per-signal reference merge; proptest scripts with a trapped signal delivered by self-kill at every position and asynchronously by the harness scheduler",
     text="Exploration: every history of <=5 operations (quick: strided, thorough: complete) over a 35-operation alphabet x interactive/non-interactive x 3 sets of initially ignored signals, plus random histories of <=14 operations; after each operation the disposition installed in the simulated process for each of 9 signals must equal max(internal, user/inherited), set_action must fail exactly in the documented cases, take_caught_signal must yield each trapped delivery exactly once. Scripts: 40k (quick) / 2M (thorough) with `kill -s USR1 $$` at every position or SIGUSR1 raised by the scheduler before a generated step: exactly one trap execution, at a command boundary, seeing and preserving $?. Bounded.",
-    note="Trusted: the reference merge in harness/src/props/c11.rs, the scheduler's asynchronous raise (only when the process currently catches the signal). Deliveries are also made to an interactive shell that reads its script through a pipe in generated chunks, so that the `read` built-in can be blocked when the signal arrives. A third family (chain) covers a signal delivered while another action runs, two signals pending at one boundary, an action that returns from the enclosing function, and delivery by the last command. Delivery during the wait built-in is not judged; terminal/job-control stoppers are exercised at API level only.",
+    note="Trusted: the reference merge in harness/src/props/c11.rs, the scheduler's asynchronous raise (only when the process currently catches the signal). Deliveries are also made to an interactive shell that reads its script through a pipe in generated chunks, so that the `read` built-in can be blocked when the signal arrives. A third family (chain) covers a signal delivered while another action runs, two signals pending at one boundary, an action that returns from the enclosing function, and delivery by the last command. A delivery made while the shell is blocked inside the `wait` built-in (child held by a probe until after the wait; signal raised by the scheduler when the shell task is blocked) must interrupt it: status > 128, action exactly once before the next command. Terminal/job-control stoppers are exercised at API level only.",
     design="4/C11"),
  "C12": dict(
     technique="property-based testing / stateful: exhaustive enumeration of valid job-event histories (automaton unranking) + proptest random histories against a shadow model and the documented invariants, checked through the public JobList API after every step",
